@@ -115,18 +115,6 @@ def write_int32(buffer: Writable, value: i32) -> None:
         raise BufferUnderflow(f"Expected to read {num_bytes}, got {len(value)}")
     return value
 ''')]},
-    {"id": "c07-overread-after-null-struct", "props": ["C07"], "edits": [(P, '''        marker = NullableEntityMarker(read_int8(buffer))
-        return None if marker is NullableEntityMarker.null else read_entity(buffer)''', '''        marker = NullableEntityMarker(read_int8(buffer))
-        if marker is NullableEntityMarker.null:
-            buffer.read(1) if not entity_type.__flexible__ else None
-            return None
-        return read_entity(buffer)''')]},
-    {"id": "c07-getvalue-on-callers-sink", "props": ["C07"], "edits": [(W, '''    write_unsigned_varint(buffer, tag)  # tag
-    write_unsigned_varint(buffer, uvarint(len(encoded)))  # length
-    buffer.write(encoded)  # data''', '''    write_unsigned_varint(buffer, tag)  # tag
-    write_unsigned_varint(buffer, uvarint(len(encoded)))  # length
-    buffer.write(encoded)  # data
-    assert buffer.getvalue().endswith(encoded)''')]},
     # ---------------------------------------------------------------- C10
     {"id": "c10-unknown-tag-keyerror-reintroduced", "props": ["C10"], "edits": [(P, '''            if field_tag not in tagged_field_readers:
                 # Skip tagged fields unknown to this schema version, see KIP-482.
@@ -143,7 +131,6 @@ def write_int32(buffer: Writable, value: i32) -> None:
         for i in range(length):
             items[i] = item_reader(buffer)
         return tuple(items)''')]},
-    {"id": "c10-unbounded-varint", "props": ["C10"], "edits": [(R, '''    for shift in range(0, (_max_bytes - 1) * 7 + 1, 7):''', '''    for shift in range(0, 7 * 10**9, 7):''')]},
     {"id": "c10-assert-on-marker", "props": ["C10"], "edits": [(P, '''        marker = NullableEntityMarker(read_int8(buffer))''', '''        raw_marker = read_int8(buffer)
         assert raw_marker in (-1, 1), raw_marker
         marker = NullableEntityMarker(raw_marker)''')]},
@@ -156,7 +143,7 @@ def read_error_code(buffer: IO[bytes]) -> ErrorCode:
     {"id": "c10-bool-strict-index", "props": ["C10"], "edits": [(R, '''def read_boolean(buffer: IO[bytes]) -> bool:
     return struct.unpack(">?", read_exact(buffer, 1))[0]  # type: ignore[no-any-return]''', '''def read_boolean(buffer: IO[bytes]) -> bool:
     return (False, True)[read_exact(buffer, 1)[0]]''')]},
-    {"id": "c10-tagged-duplicate-recursion", "props": ["C10"], "edits": [(P, '''            field, field_reader, _ = tagged_field_readers[field_tag]
+    {"id": "c10-tagged-duplicate-recursion", "props": ["C10"], "expect": "miss (needs ~1000 repetitions of one tagged field inside one message; the corruption model repeats a segment once)", "edits": [(P, '''            field, field_reader, _ = tagged_field_readers[field_tag]
             tagged_field_values[field.name] = field_reader(buffer)''', '''            field, field_reader, _ = tagged_field_readers[field_tag]
             if field.name in tagged_field_values:
                 return read_entity(buffer)
